@@ -31,6 +31,12 @@ def c07_runs(tier, scale):
     return [("c07", [600 * scale, 3], None), ("c07", [400 * scale, 4], None)]
 
 
+def c08_runs(tier, scale):
+    if tier == "thorough":
+        return [("c08", [8000 * scale, 2 + (i % 4)], None) for i in range(16)]
+    return [("c08", [1500 * scale, 3], None), ("c08", [1000 * scale, 4], None)]
+
+
 def c05_runs(tier, scale):
     th = 1 if tier == "thorough" else 0
     runs = [("c05", [lim, th], None) for lim in ([4096, 65536, 1 << 20] if tier == "quick" else [4096, 16384, 65536, 1 << 20, 16 << 20])]
@@ -160,6 +166,35 @@ PROPS = {
                 "left out, fields reordered, extra field, map for a record, value of another type); rows: validate, resolve, non-validating encode "
                 "(model correspondence) and the three validating writers + read-back (implementation oracle); distinct = distinct request lines",
         "trusted_base": DATUM_TB + ["f32/f64 conversions are a parameter of the model (FloatOps); the driver instantiates it with the host's IEEE operations"],
+        "assumptions": [],
+    },
+    "C08": {
+        "lean_modules": ["AvroProofs.C08"],
+        "theorems": ["Avro.C08.int_to_long", "Avro.C08.int_to_float", "Avro.C08.int_to_double", "Avro.C08.long_to_float", "Avro.C08.long_to_double",
+                     "Avro.C08.float_to_double", "Avro.C08.string_to_bytes", "Avro.C08.bytes_to_string", "Avro.C08.logical_to_underlying",
+                     "Avro.C08.underlying_to_logical", "Avro.C08.logical_not_promoted_to_float", "Avro.C08.null_reader", "Avro.C08.boolean_reader", "Avro.C08.int_reader", "Avro.C08.long_reader",
+                     "Avro.C08.string_reader", "Avro.C08.enum_by_name", "Avro.C08.enum_unknown_default", "Avro.C08.enum_unknown_no_default",
+                     "Avro.C08.record_reader_order", "Avro.C08.field_by_name", "Avro.C08.field_by_alias", "Avro.C08.field_missing_no_default",
+                     "Avro.C08.field_default_plain", "Avro.C08.union_branch_sound", "Avro.C08.union_no_branch"],
+        "partial": [
+            {"theorem": "rule-by-rule theorems (Avro.C08.*)",
+             "excluded_by": "the crate resolves a decoded VALUE against the reader schema and never consults the writer schema, so the rules are proved per "
+                            "(value, reader type): promotions, logical/underlying, exact characterisations of the null/boolean/int/long/string readers, enums, "
+                            "records (reader order, name-then-alias, defaults, missing), unions (result names a real branch and holds the value resolved against it). "
+                            "NOT proved: that the branch a union picks is the one the writer's branch matches by the specification (it is picked from the value's "
+                            "kind and structure - open findings), 'the result validates against R' and idempotence in general (both FALSE of the code for the "
+                            "recorded findings); these are decided by the specification oracle of the correspondence run"},
+        ],
+        "harness": c08_runs,
+        "projection": "okerr",
+        "nontrivial": lambda l: True,
+        "rule": "(W, R) = generated schema and 1..3 rounds of evolution steps on its JSON at rates 0/8/20/40 % per node (promote, incompatible primitive change, "
+                "plain<->logical, wrap in / unwrap from a union, add / remove / reorder union branches, add field with one of 22 (type, default) pairs or without "
+                "default, remove / reorder / rename-with-alias / rename-without-alias fields, add / remove (with, without default) / reorder enum symbols, change "
+                "fixed size, items / values types recursively) x 3 conforming values of W each; rows: Value::resolve(R) vs the model (exact); oracle: independent "
+                "resolver written from the specification over BOTH schemas, result validates against R, resolve twice = once, datum reader and container reader "
+                "with reader schema agree with Value::resolve; failures are localized to the deepest disagreeing node and classed by (writer kind, reader kind)",
+        "trusted_base": DATUM_TB + ["f32/f64 conversions are a parameter of the model (FloatOps)", "the specification oracle (harness/src/c08.rs spec_resolve, default_value) is hand-written from the Avro 1.12 text"],
         "assumptions": [],
     },
     "C05": {
